@@ -242,6 +242,26 @@ func C04(c *core.Ctx) {
 			}
 		}
 	}
+	// several senders on one client, a peer that is slow but inside the timeout for every message: each Send's
+	// timeout runs from ITS OWN write, not from the moment it started to wait for the sender before it
+	for round := 0; round < c.N(2, 10); round++ {
+		cfq := ccfg{host: []byte("h"), ack: true, timeout: 600 * time.Millisecond}
+		mk := func(id string) concOp {
+			o := concSend(cfq, "message", 20, id, true)
+			o.ackDelay = 350 * time.Millisecond
+			return o
+		}
+		progs := [][]concOp{{mk(fmt.Sprintf("q%d-a", round))}, {mk(fmt.Sprintf("q%d-b", round))}}
+		run := runConcFree(cfq, []concOp{{kind: "C", dialOK: true}}, progs)
+		c.Eval()
+		c.Hist("two queued senders, acks after 350 ms with a 600 ms timeout")
+		for w := range progs {
+			if len(run.rets[w]) != 1 || run.rets[w][0] != "ok" {
+				c.Violation("judge-go", "c04-queued-timeout", fmt.Sprintf("sender %d of two queued senders: %v although its ack arrived 350 ms after its own write (timeout 600 ms)", w, run.rets[w]),
+					map[string]interface{}{"timeout_ms": 600, "ack_delay_ms": 350, "results": renderRets(run.rets)})
+			}
+		}
+	}
 	c.Extra("timeout_ms", timeout.Milliseconds())
 	c.Extra("slack_ms", slack.Milliseconds())
 }
